@@ -137,6 +137,9 @@ def gen_case(rng):
         for _ in range(rng.randint(1, 5)):
             if len(allrefs) >= 2:
                 clauses.append(tuple(rng.sample(allrefs, 2)))
+    if must_connect and rng.random() < 0.3:
+        must_connect = []
+        tags.add("sub-model-connector-possibly-unconnected-at-top")
     for m in must_connect:
         if not any(m in c for c in clauses):
             other = rng.choice([x for x in allrefs if x != m])
@@ -172,12 +175,12 @@ def reference(desc, clauses):
     variables = [c + "." + v for c in connectors for v in pots + flows]
     col = {v: i for i, v in enumerate(variables)}
     uf = UF()
-    touched = set()
+    touched = set()      # connection elements (connector, inside?) that are in some connect clause
     # top level: a reference with a dot is a connector of a component (inside), a port is outside
     for a, b in clauses:
         ea, eb = (a, "." in a), (b, "." in b)
         uf.union(ea, eb)
-        touched |= {a, b}
+        touched |= {ea, eb}
     # inside each SubM instance
     for nm, ty in desc["comps"]:
         if ty != "SubM":
@@ -185,7 +188,7 @@ def reference(desc, clauses):
         for a, b in desc["sub_clauses"]:
             ea, eb = ("%s.%s" % (nm, a), "." in a), ("%s.%s" % (nm, b), "." in b)
             uf.union(ea, eb)
-            touched |= {ea[0], eb[0]}
+            touched |= {ea, eb}
     sets = {}
     for e in list(uf.p):
         sets.setdefault(uf.find(e), []).append(e)
@@ -203,8 +206,12 @@ def reference(desc, clauses):
             for (c, inside) in members:
                 r[col[c + "." + f]] += 1 if inside else -1
             rows.append(r)
+    # a connector of a component is an inside connector of the class that declares the component; when it is in no
+    # connect clause there (even if it is connected, as an outside connector, inside its own component) its flow
+    # variables are zero.  The ports of the top-level model only exist as outside connectors.
     for c in connectors:
-        if c not in touched:
+        element = (c, c not in desc["ports"])
+        if element not in touched:
             for f in flows:
                 r = [Fraction(0)] * len(variables)
                 r[col[c + "." + f]] = Fraction(1)
